@@ -682,7 +682,25 @@ void op_copy(Ctx& c, const Op& op) {
   size_t a = pick_view(c, op.uarg(0));
   View& v = c.views[a];
   View nv;
-  nv.f.reset(new bloom_filter(*v.f));
+  // how the copy is taken: copy construction, copy assignment over an unrelated filter, or a move of a copy
+  const unsigned mode = static_cast<unsigned>(op.uarg(1) % 4);
+  if (mode == 1) {
+    nv.f.reset(new bloom_filter(bloom_filter::builder::create_by_size(64 + 64 * (op.uarg(1) / 4 % 5), 3, 99)));
+    if (op.uarg(1) / 32 % 2) nv.f->update(static_cast<uint64_t>(7));
+    *nv.f = *v.f;
+    vf::label("copy-assign");
+  } else if (mode == 2) {
+    bloom_filter tmp(*v.f);
+    nv.f.reset(new bloom_filter(std::move(tmp)));
+    vf::label("copy-move");
+  } else if (mode == 3) {
+    bloom_filter tmp(*v.f);
+    nv.f.reset(new bloom_filter(bloom_filter::builder::create_by_size(128, 2, 5)));
+    *nv.f = std::move(tmp);
+    vf::label("copy-move-assign");
+  } else {
+    nv.f.reset(new bloom_filter(*v.f));
+  }
   nv.ro = v.ro; nv.kind = v.kind; nv.sus = v.sus; nv.dirty_m = v.dirty_m;
   const bool wu = v.s->wwrap_update;
   if (v.s->is_mem) {
@@ -865,7 +883,7 @@ rc::Gen<Case> gen_main() {
       {2, op3("intersect", vsel, vsel, range(0, 63))},
       {1, op2("invert", vsel, range(0, 63))},
       {1, op1("reset", vsel)},
-      {2, op1("copy", vsel)},
+      {2, op2("copy", vsel, range(0, 63))},
       {2, op1("bits", vsel)},
       {1, op1("drop", vsel)},
   });
@@ -891,7 +909,7 @@ rc::Gen<Case> gen_large() {
                      {2, op3("union", vsel, vsel, range(1, 15))},
                      {1, op3("intersect", vsel, vsel, range(1, 15))},
                      {1, op2("invert", vsel, range(1, 15))},
-                     {1, op1("copy", vsel)}});
+                     {1, op2("copy", vsel, range(0, 63))}});
   return make_case({{"nbits", range(70001, 1 << 22)}, {"nh", range(1, 12)}, {"seed", range(0, 1 << 20)}, {"k0", range(0, 3)}, {"disc", range(0, 1)}, {"rnd", range(1, 1 << 20)}},
                    oplist(opg, 2, 0.08));
 }
